@@ -25,7 +25,10 @@ TABLES = [
     [['mit', [], False], ['gpl or later', ['gpl+'], False]],
 ]
 TEXTS = ['gplv2 and expat', 'GNU GPL 2 with cp or MIT License', 'MIT License and mit', 'gpl or later', 'gpl-2.0 with classpath',
-         'mit and (gpl-2.0 or MIT) and mit', 'mit or', '()', 'a$ and b', 'Classpath', 'foo bar and mit', 'mit and gpl-2.0 and mit']
+         'mit and (gpl-2.0 or MIT) and mit', 'mit or', '()', 'a$ and b', 'Classpath', 'foo bar and mit', 'mit and gpl-2.0 and mit',
+         # repeats inside nested groups that keep two operands (what an in-place rewrite of a nested node would change)
+         'mit or (gpl-2.0 and foo and gpl-2.0)', 'mit and (gpl-2.0 or (mit and foo and mit) or gpl-2.0)',
+         '(mit or gpl-2.0) and (gpl-2.0 with classpath or mit or gpl-2.0 with classpath)']
 
 
 def snap(e):
